@@ -25,6 +25,7 @@ func init() {
 }
 
 func runC23(c *core.Ctx) {
+	c23SoftFailuresAfterDebit(c)
 	const pkg = "process/transaction"
 	isMut := func(cc *ssa.CallCommon, acc ssa.Value) bool {
 		if !cc.IsInvoke() || cc.Value != acc {
@@ -229,4 +230,82 @@ func isIfNilBranch(b *ssa.BasicBlock, acc ssa.Value) bool {
 	}
 	call, ok := ifi.Cond.(*ssa.Call)
 	return ok && core.CallDesc(&call.Call).Name == "IfNil" && core.Strip(call.Call.Args[0]) == acc
+}
+
+// c23SoftFailuresAfterDebit: executeAfterFailedMoveBalanceTransaction turns some errors of
+// processMoveBalance into a failed-but-executed transaction: it refunds the value and books the fee,
+// assuming the sender was already charged. Those errors may therefore be returned only after the
+// charge: every return of processMoveBalance whose error can be one of them lies behind the
+// error-checked processTxFee call (the set of such errors is read from the errors.Is tests of
+// the handler, not listed).
+func c23SoftFailuresAfterDebit(c *core.Ctx) {
+	const pkg = "process/transaction"
+	handler := anchorM(c, pkg, "txProcessor", "executeAfterFailedMoveBalanceTransaction")
+	pmb := anchorM(c, pkg, "txProcessor", "processMoveBalance")
+	if handler == nil || pmb == nil {
+		return
+	}
+	c.Analysed(fname(handler))
+	c.Analysed(fname(pmb))
+	soft := map[string]bool{}
+	core.Instrs(handler, func(in ssa.Instruction) {
+		cc := core.CallOf(in)
+		if cc == nil || cc.StaticCallee() == nil || cc.StaticCallee().Name() != "Is" || len(cc.Args) != 2 {
+			return
+		}
+		if u, ok := cc.Args[1].(*ssa.UnOp); ok {
+			if g, ok := u.X.(*ssa.Global); ok {
+				soft[g.Name()] = true
+			}
+		}
+	})
+	if len(soft) == 0 {
+		c.Undecided("C23/soft-failures-only-after-the-charge", "executeAfterFailedMoveBalanceTransaction", handler.Pos(), "no errors.Is test found in the failure handler")
+		return
+	}
+	mayReturn := func(fn *ssa.Function) bool {
+		hit := false
+		for _, r := range core.Returns(fn) {
+			ev := core.RetErrOperand(r)
+			if u, ok := ev.(*ssa.UnOp); ok {
+				if g, ok := u.X.(*ssa.Global); ok && soft[g.Name()] {
+					hit = true
+				}
+			}
+		}
+		return hit
+	}
+	n := 0
+	for _, r := range core.Returns(pmb) {
+		ev := core.RetErrOperand(r)
+		if ev == nil {
+			continue
+		}
+		isSoft := ""
+		for x := range core.BackwardReachPure(ev) {
+			if u, ok := x.(*ssa.UnOp); ok {
+				if g, ok := u.X.(*ssa.Global); ok && soft[g.Name()] {
+					isSoft = g.Name()
+				}
+			}
+			if call, ok := x.(*ssa.Call); ok && call.Call.StaticCallee() != nil && len(call.Call.StaticCallee().Blocks) > 0 && call.Call.StaticCallee().Name() != "processTxFee" {
+				if mayReturn(call.Call.StaticCallee()) {
+					isSoft = "the error of " + call.Call.StaticCallee().Name()
+				}
+			}
+		}
+		if isSoft == "" {
+			continue
+		}
+		n++
+		r := r
+		cv := core.NewCheckedVia(pmb, func(in ssa.Instruction, cc *ssa.CallCommon) bool {
+			return cc.StaticCallee() != nil && cc.StaticCallee().Name() == "processTxFee"
+		})
+		esc, path := core.PathQ{Fn: pmb, Via: cv.Via, ViaEdge: cv.ViaEdge, Target: func(in ssa.Instruction, _ *ssa.BasicBlock) bool { return in == ssa.Instruction(r) }}.Escape()
+		c.Check(esc == nil && len(cv.Calls) > 0, "C23/soft-failures-only-after-the-charge", fmt.Sprintf("processMoveBalance/return#%d(%s)", n, isSoft), r.Pos(),
+			"this error, which the caller turns into a refunded failed transaction, is returned only after the sender was charged",
+			isSoft+" can be returned before the sender is charged ("+c.P.PathString(path)+"): the failure handler refunds the value and books the fee of a transaction that never debited the sender - value is created, the nonce does not advance and the transaction can be replayed")
+	}
+	c.Floor("C23/soft-failures-only-after-the-charge", 2)
 }
